@@ -19,10 +19,11 @@
 (***************************************************************************)
 EXTENDS Integers, Sequences, FiniteSets, TLC, Json
 
-CONSTANTS MaxBlocks, Hs, Rich    \* Rich: TRUE adds left/right forced breaks and a distinct first-page height
+CONSTANTS MaxBlocks, Hs, Rich,   \* Rich: TRUE adds left/right forced breaks and a distinct first-page height
+          NthAll               \* TRUE: every @page :nth(An+B) selector of the bounded family, FALSE: :nth(2n+1) only
 
-VARIABLES doc, H, Hfirst, resume, right, pages, placed, pending, phase
-vars == <<doc, H, Hfirst, resume, right, pages, placed, pending, phase>>
+VARIABLES doc, H, Hfirst, nth, resume, right, pages, placed, pending, phase
+vars == <<doc, H, Hfirst, nth, resume, right, pages, placed, pending, phase>>
 
 BVafter == IF Rich THEN {"auto", "avoid", "page", "left", "right"} ELSE {"auto", "avoid", "page"}
 Blk == [lines : 1..3, bb : {"auto", "avoid"}, ba : BVafter, bi : {"auto", "avoid"}, orphans : 1..2, widows : 1..2]
@@ -99,8 +100,11 @@ WhyNot(d, h, s, e) ==
      ELSE "other"
 
 ---------------------------------------------------------------------------
+\* @page :nth(An+B) matches the page of (1-based) index i iff i = A*n + B for some integer n >= 0
+NthSet == IF NthAll THEN [a : (-2)..3, b : (-1)..5] ELSE {[a |-> 2, b |-> 1]}
+NthMatch(sel, i) == \E n \in 0..(i + 6) : sel.a * n + sel.b = i
 Docs(n) == UNION {[1..m -> Blk] : m \in 1..n}
-Init == /\ doc \in Docs(MaxBlocks) /\ H \in Hs /\ Hfirst \in (IF Rich THEN Hs \cup {0} ELSE {0})
+Init == /\ doc \in Docs(MaxBlocks) /\ H \in Hs /\ Hfirst \in (IF Rich THEN Hs \cup {0} ELSE {0}) /\ nth \in NthSet
         /\ resume = 1 /\ right = TRUE /\ pages = <<>> /\ placed = <<>> /\ pending = "auto" /\ phase = "paginate"
 \* (Hfirst = 0 means: no @page :first rule, the first page is like the others)
 Cap(i) == IF i = 1 /\ Hfirst # 0 THEN Hfirst ELSE H
@@ -110,7 +114,7 @@ InsertBlank == /\ phase = "paginate" /\ resume <= N(doc)
                /\ (pending = "left" /\ right) \/ (pending = "right" /\ ~right)
                /\ pages' = Append(pages, [lines |-> <<>>, right |-> right, blank |-> TRUE])
                /\ right' = ~right /\ pending' = "auto"
-               /\ UNCHANGED <<doc, H, Hfirst, resume, placed, phase>>
+               /\ UNCHANGED <<doc, H, Hfirst, nth, resume, placed, phase>>
 RemakePage == /\ phase = "paginate" /\ resume <= N(doc)
               /\ ~((pending = "left" /\ right) \/ (pending = "right" /\ ~right))
               /\ LET e == PageEnd(doc, Cap(Len(pages) + 1), resume) IN
@@ -119,16 +123,16 @@ RemakePage == /\ phase = "paginate" /\ resume <= N(doc)
                  /\ pending' = IF e < N(doc) THEN Combined(doc, e) ELSE "auto"
                  /\ resume' = e + 1
               /\ right' = ~right
-              /\ UNCHANGED <<doc, H, Hfirst, phase>>
+              /\ UNCHANGED <<doc, H, Hfirst, nth, phase>>
 Finish == /\ phase = "paginate" /\ resume > N(doc) /\ phase' = "done"
-          /\ UNCHANGED <<doc, H, Hfirst, resume, right, pages, placed, pending>>
+          /\ UNCHANGED <<doc, H, Hfirst, nth, resume, right, pages, placed, pending>>
 \* building the document one paragraph at a time (simulation of larger documents: INIT InitBuild)
-InitBuild == /\ doc = <<>> /\ H \in Hs /\ Hfirst \in (IF Rich THEN Hs \cup {0} ELSE {0})
+InitBuild == /\ doc = <<>> /\ H \in Hs /\ Hfirst \in (IF Rich THEN Hs \cup {0} ELSE {0}) /\ nth \in NthSet
              /\ resume = 1 /\ right = TRUE /\ pages = <<>> /\ placed = <<>> /\ pending = "auto" /\ phase = "build"
 AddBlock == /\ phase = "build" /\ Len(doc) < MaxBlocks /\ \E b \in Blk : doc' = Append(doc, b)
-            /\ UNCHANGED <<H, Hfirst, resume, right, pages, placed, pending, phase>>
+            /\ UNCHANGED <<H, Hfirst, nth, resume, right, pages, placed, pending, phase>>
 EndBuild == /\ phase = "build" /\ Len(doc) = MaxBlocks /\ phase' = "paginate"
-            /\ UNCHANGED <<doc, H, Hfirst, resume, right, pages, placed, pending>>
+            /\ UNCHANGED <<doc, H, Hfirst, nth, resume, right, pages, placed, pending>>
 Next == AddBlock \/ EndBuild \/ InsertBlank \/ RemakePage \/ Finish
 Spec == Init /\ [][Next]_vars /\ WF_vars(Next)
 SpecBuild == InitBuild /\ [][Next]_vars /\ WF_vars(Next)
@@ -153,5 +157,6 @@ SideHonoured == \A i \in 1..Len(pages) - 1 :
 FitsPage == \A i \in 1..Len(pages) : Len(pages[i].lines) <= 1 \/ Len(pages[i].lines) <= Cap(i)
 Terminates == <>(phase = "done")
 
-Emit == phase = "done" => PrintT(ToJson([doc |-> doc, H |-> H, Hfirst |-> Hfirst, pages |-> pages]))
+Emit == phase = "done" => PrintT(ToJson([doc |-> doc, H |-> H, Hfirst |-> Hfirst, nth |-> nth, pages |-> pages,
+                                         nthpages |-> [k \in 1..Len(pages) |-> NthMatch(nth, k)]]))
 =============================================================================
